@@ -6,6 +6,7 @@ import (
 	"time"
 
 	"github.com/ozontech/file.d/logger"
+	"github.com/ozontech/file.d/verifhook"
 	"go.uber.org/atomic"
 )
 
@@ -114,6 +115,7 @@ func (s *streamer) joinStream() *stream {
 	stream := s.charged[l-1]
 	s.charged = s.charged[:l-1]
 	s.chargedMu.Unlock()
+	verifhook.Point("streamer.join.beforeAttach")
 	stream.attach()
 
 	return stream
@@ -162,6 +164,7 @@ func (s *streamer) heartbeat() {
 		for _, stream := range streams {
 			stream.tryUnblock()
 		}
+		verifhook.Point("streamer.tick")
 	}
 }
 
